@@ -5,6 +5,9 @@
 From Coq Require Import ZArith List.
 From Pnc Require Import Proofs_Vlen.
 From Pnc Require Import Proofs_Layout.
+From Pnc Require Import CSub.
+From Pnc Require Import Gen_vlens.
+From Pnc Require Import Proofs_GenVlens.
 Set Printing Width 100.
 Set Printing Depth 100000.
 
@@ -114,3 +117,28 @@ Theorem C18_vsize_saturation :
          Some (HeaderSpec.expected_vsize fmt len, r).
 Proof. exact @vsize_saturation. Qed.
 Print Assumptions C18_vsize_saturation.
+
+(* the C function ncmpio_NC_check_vlen, as translated from the source as built on this run (Gen_vlens.v, tools/tr_cfun.py), returns 1/0 exactly as Header.check_vlen says, without undefined behaviour *)
+Theorem C18_gen_check_vlen_eq :
+  forall (xsz : Z) (shape : list Z) (vmax : Z),
+         (1 <= xsz)%Z ->
+         legal_shape shape ->
+         (Base.Zlen shape <= 2147483647)%Z ->
+         (0 <= vmax <= 9223372036854775807)%Z ->
+         ncmpio_NC_check_vlen_c (c_var xsz shape) vmax =
+         FVal (b2z (Header.check_vlen xsz shape vmax)).
+Proof. exact @gen_check_vlen_eq. Qed.
+Print Assumptions C18_gen_check_vlen_eq.
+
+(* the same for ncmpio_NC_check_vlens against Header.check_vlens, for every header satisfying the guards the C code relies on *)
+Theorem C18_gen_check_vlens_eq :
+  forall h : Header.hdr,
+         vlens_wf h -> ncmpio_NC_check_vlens_c (c_view h) = FVal (Header.check_vlens h).
+Proof. exact @gen_check_vlens_eq. Qed.
+Print Assumptions C18_gen_check_vlens_eq.
+
+(* the translator met no construct outside its subset *)
+Theorem C18_gen_vlens_subset_complete :
+  tr_cfun_unsupported = nil.
+Proof. exact @gen_vlens_subset_complete. Qed.
+Print Assumptions C18_gen_vlens_subset_complete.
